@@ -7,7 +7,7 @@
    collector behaves like this one under every forced schedule, and that its timer thread is race-free
    and always stopped, is observed (not proved) by the schedule-forcing and ThreadSanitizer runs. *)
 From Coq Require Import List ZArith String Ascii Bool Arith.
-From Bloch Require Import Lang.Syntax Lang.Eval Lang.Gc.
+From Bloch Require Import Lang.Syntax Lang.Eval Lang.Gc Lang.GcPin.
 Import ListNotations.
 
 Theorem C11_marking_reaches_everything_reachable :
@@ -48,3 +48,35 @@ Example ex_collect :
   map (fun o => List.length (o_fields o)) (s_heap (collect 10 [] s4)) = [1; 1; 0; 0]%nat
   /\ map (@o_dead Z) (s_heap (collect 10 [] s4)) = [false; false; true; true].
 Proof. vm_compute. split; reflexivity. Qed.
+
+(* The implementation's second rule (runCycleCollector): objects whose release is observable - user destructor,
+   qubits, @tracked fields - are never released by a sweep, nor is anything from which one can be reached, through
+   garbage or through live objects.  GcPin.pin is the implementation's `while (changed)` iteration; hook H7 logs the
+   heap graph, the kept set and the swept set of every collection and the check compares them with pin (extracted).
+   For every heap graph: when the iteration stops, the kept set holds every object that reaches an observable one - so
+   an object the sweep wipes reaches none, and none of its fields refers to an observable object or to a kept one. *)
+Theorem C11_the_kept_set_holds_everything_that_reaches_an_observable_object :
+  forall (children : nat -> list nat) (nodes : list nat) (obs : nat -> bool),
+    (forall l, In l nodes -> forall m, In m (children l) -> In m nodes) ->
+    forall fuel seeds Q,
+      pin children nodes fuel seeds = Some Q ->
+      (forall n, In n nodes -> obs n = true -> In n seeds) ->
+      forall l n, In l nodes -> reaches children l n -> obs n = true -> In l Q.
+Proof. exact pinned_covers. Qed.
+Print Assumptions C11_the_kept_set_holds_everything_that_reaches_an_observable_object.
+
+Theorem C11_what_a_sweep_wipes_reaches_nothing_whose_release_is_observable :
+  forall (children : nat -> list nat) (nodes : list nat) (obs : nat -> bool),
+    (forall l, In l nodes -> forall m, In m (children l) -> In m nodes) ->
+    forall fuel seeds Q l,
+      pin children nodes fuel seeds = Some Q ->
+      (forall n, In n nodes -> obs n = true -> In n seeds) ->
+      In l nodes -> ~ In l Q ->
+      (forall n, reaches children l n -> obs n = false) /\ (forall m, In m (children l) -> obs m = false /\ ~ In m Q).
+Proof. exact swept_reaches_nothing_observable. Qed.
+Print Assumptions C11_what_a_sweep_wipes_reaches_nothing_whose_release_is_observable.
+
+(* non-vacuity: garbage 1 holds live plain 2, which holds observable 3; unrelated garbage 4 is the only thing outside *)
+Example ex_kept_through_live :
+  pin (fun l => match l with 1 => [2] | 2 => [3] | _ => [] end)%nat [1; 2; 3; 4]%nat 5 [3]%nat = Some [3; 2; 1]%nat.
+Proof. reflexivity. Qed.
